@@ -16,12 +16,13 @@ import (
 func init() {
 	Register(&Spec{
 		ID:          "C11",
-		Explanation: "Decides structural necessary conditions of exactly-once, deadlock-free promise pipelining: (R1) lock balance and the documented 'caller must hold p.mu' contracts in answer.go, on every CFG path; (R2) all Promise fields declared after mu are only touched with Promise.mu held (named exemptions for the pending-state exclusive accesses); (R3) a lazily created map field is established non-nil on every path before each element assignment; (R4) every function that receives a capnp.Recv consumes its Returner exactly once on every path; (R5) ongoingCalls++/-- bracket the pipeline call on every path and callsStopped is closed only under ongoingCalls == 0 && callsStopped != nil; (R6) joined/signals are cleared after being closed, and Fulfill/Reject/Join act only when isUnresolved(); (R7) no application code and no re-lock under Promise.mu. Does NOT decide exactly-once delivery under all interleavings nor reference transfer of proxy clients.",
+		Explanation: "Decides structural necessary conditions of exactly-once, deadlock-free promise pipelining: (R1) lock balance and the documented 'caller must hold p.mu' contracts in answer.go, on every CFG path; (R2) all Promise fields declared after mu are only touched with Promise.mu held (named exemptions for the pending-state exclusive accesses); (R3) a lazily created map field is established non-nil on every path before each element assignment; (R4) every function that receives a capnp.Recv consumes its Returner exactly once on every path; (R5) ongoingCalls++/-- bracket the pipeline call on every path and callsStopped is closed only under ongoingCalls == 0 && callsStopped != nil; (R6) joined/signals are cleared after being closed, and Fulfill/Reject/Join act only when isUnresolved(); (R7) no application code and no re-lock under Promise.mu. (R6c) rows written by Join into the target's clients table extend the existing row; (R7p) no foreign code is reached in any function while a Promise.mu is held. Does NOT decide exactly-once delivery under all interleavings nor reference transfer of proxy clients.",
 		Run:         runC11,
 	})
 }
 
 func runC11(ctx *Ctx) {
+	ruleJoinMergesRows(ctx, "C11-R6c")
 	scope := fileScope(ctx, "answer.go")
 	ruleLockBalance(ctx, "C11-R1", scope)
 	ruleLockContracts(ctx, "C11-R1c", func(n string) bool { return strings.HasPrefix(n, "capnp.(*Promise).") })
@@ -35,6 +36,13 @@ func runC11(ctx *Ctx) {
 	ruleJoinState(ctx, "C11-R6b")
 	ctx.Rep.Floor("C11-R6b", 4)
 	rulePolicy(ctx, "C11-R7", scope, heldPolicy{noDynamic: []string{"capnp.Promise.mu"}})
+	// ... and no foreign code (ClientHook methods, callbacks) is reached, in any
+	// function, while a Promise.mu taken in answer.go is held (absolute lock state
+	// propagated from the entry points): the client promises are fulfilled only
+	// after resolve has dropped the lock
+	// (blocking receives are not part of this policy: Join waits for callsStopped of
+	// one promise while it holds the mutex of the other, by design)
+	rulePolicy(ctx, "C11-R7p", allUnits, heldPolicy{noDynamic: []string{"capnp.Promise.mu"}})
 	r := ctx.Rep
 	r.Floor("C11-R1", 40)
 	r.Floor("C11-R1c", 7)
